@@ -1,1 +1,474 @@
-// placeholder
+// c11_libformats.hpp -- the PNG / JPEG / TIFF parts of the C11 monitor (GIL's glue around the system
+// libraries: read callbacks, setjmp/longjmp error trampolines, row buffers, is_allowed tables).
+// Included by c11_io_fuzz.cpp for C11_FMT >= 3; uses its engine (seed_t, mut_case, add_seed ...).
+#pragma once
+
+// chunk / marker / IFD walkers of the harness's own ---------------------------------------------------
+
+#if C11_FMT == 3   // ---------------------------------------------------------------------------- PNG
+struct png_chunk { size_t off; uint32_t len; char type[5]; };
+static std::vector<png_chunk> png_chunks(std::string const& b) {
+    std::vector<png_chunk> v;
+    size_t p = 8;
+    while (p + 12 <= b.size()) {
+        png_chunk c; c.off = p; c.len = (uint32_t)c11::get_be(b, p, 4); memcpy(c.type, b.data() + p + 4, 4); c.type[4] = 0;
+        v.push_back(c);
+        if ((uint64_t)p + 12 + c.len > b.size()) break;
+        p += 12 + c.len;
+    }
+    return v;
+}
+// recompute the CRC of every chunk that lies completely inside the bytes (so that a mutated field is
+// not simply rejected by the CRC check)
+static std::string png_fix_crcs(std::string b) {
+    for (auto const& c : png_chunks(b)) {
+        if ((uint64_t)c.off + 12 + c.len > b.size()) break;
+        uint32_t crc = (uint32_t)crc32(0L, (const Bytef*)b.data() + c.off + 4, 4 + c.len);
+        c11::put_be(b, c.off + 8 + c.len, 4, crc);
+    }
+    return b;
+}
+struct F_png {
+    typedef gil::png_tag tag;
+    static const char* name() { return "png"; }
+    static const char* ext() { return "png"; }
+    static const bool has_FILE = true;
+    static const bool subrect = true;
+    typedef std::tuple<gil::gray8_image_t, gil::rgb8_image_t, gil::rgba8_image_t, gil::gray16_image_t, gil::rgb16_image_t> natives;
+    typedef std::tuple<gil::rgba8_image_t, gil::gray16_image_t> conv_targets;
+    typedef gil::any_image<gil::gray8_image_t, gil::rgb8_image_t, gil::rgba8_image_t, gil::rgb16_image_t> any_t;
+    static std::string info_str(gil::image_read_info<tag> const& i) {
+        return vh::cat("w=", i._width, " h=", i._height, " bd=", (int)i._bit_depth, " ct=", (int)i._color_type, " il=", (int)i._interlace_method,
+                       " cm=", (int)i._compression_method, " fm=", (int)i._filter_method, " nch=", (int)i._num_channels);
+    }
+    static bool parse_dims(std::string const& b, long& w, long& h, uint64_t& extra) {
+        extra = 0;
+        if (b.size() < 24) return false;
+        uint64_t ww = c11::get_be(b, 16, 4), hh = c11::get_be(b, 20, 4);
+        if (ww > 0x7FFFFFFF || hh > 0x7FFFFFFF) return false;
+        w = (long)ww; h = (long)hh;
+        return true;
+    }
+    static uint64_t declared_slack(std::string const&) { return 4096; }      // Adam7 passes, ancillary chunks
+    static size_t header_len(seed_t const&) { return 60; }
+    static std::string fixup(std::string const& b) { return png_fix_crcs(b); }
+    static std::vector<c11::field_t> fields(seed_t const& s) {
+        std::vector<c11::field_t> f = { { "sig_byte0", 0, 1, true }, { "ihdr_len", 8, 4, true }, { "ihdr_type", 12, 4, true }, { "width", 16, 4, true }, { "height", 20, 4, true },
+                                        { "bit_depth", 24, 1, true }, { "color_type", 25, 1, true }, { "compression", 26, 1, true }, { "filter", 27, 1, true },
+                                        { "interlace", 28, 1, true }, { "ihdr_crc", 29, 4, true } };
+        bool idat = false, plte = false, trns = false;
+        for (auto const& c : png_chunks(s.bytes)) {
+            if (!strcmp(c.type, "IDAT") && !idat) { idat = true; f.push_back({ "idat_len", (unsigned)c.off, 4, true }); f.push_back({ "idat_zlib_hdr", (unsigned)c.off + 8, 2, true }); }
+            if (!strcmp(c.type, "PLTE") && !plte) { plte = true; f.push_back({ "plte_len", (unsigned)c.off, 4, true }); }
+            if (!strcmp(c.type, "tRNS") && !trns) { trns = true; f.push_back({ "trns_len", (unsigned)c.off, 4, true }); }
+            if (!strcmp(c.type, "IEND")) f.push_back({ "iend_len", (unsigned)c.off, 4, true });
+        }
+        return f;
+    }
+};
+typedef F_png F;
+static void format_setup() {}
+
+// a PNG writer of the harness's own for variants GIL's writer does not produce (palette, tRNS, interlace, sub-byte depths)
+static std::string png_chunk_bytes(const char* type, std::string const& data) {
+    std::string c; c11::app_be(c, 4, data.size()); c += std::string(type, 4) + data;
+    uint32_t crc = (uint32_t)crc32(0L, (const Bytef*)c.data() + 4, 4 + data.size());
+    c11::app_be(c, 4, crc);
+    return c;
+}
+static std::string png_build(int w, int h, int bit_depth, int color_type, int palette_entries, int trns_entries, uint64_t seed, std::string const& raw_override = std::string()) {
+    int channels = color_type == 0 ? 1 : color_type == 2 ? 3 : color_type == 3 ? 1 : color_type == 4 ? 2 : 4;
+    size_t rowbytes = ((size_t)w * channels * bit_depth + 7) / 8;
+    std::string raw;
+    vh::rng r(vh::mix(seed, 0x9A6));
+    for (int y = 0; y < h; ++y) {
+        raw.push_back((char)(y % 5 == 4 ? 0 : y % 5));       // filter type 0..4
+        for (size_t i = 0; i < rowbytes; ++i) {
+            unsigned v = (unsigned)r.next() & 0xFF;
+            if (color_type == 3 && bit_depth == 8 && palette_entries > 0) v %= (unsigned)palette_entries;
+            raw.push_back((char)v);
+        }
+    }
+    if (!raw_override.empty()) raw = raw_override;
+    uLongf zl = compressBound(raw.size());
+    std::string z(zl, '\0');
+    compress2((Bytef*)&z[0], &zl, (const Bytef*)raw.data(), raw.size(), 6);
+    z.resize(zl);
+    std::string b = "\x89PNG\r\n\x1a\n";
+    std::string ihdr; c11::app_be(ihdr, 4, w); c11::app_be(ihdr, 4, h); ihdr.push_back((char)bit_depth); ihdr.push_back((char)color_type); ihdr.push_back(0); ihdr.push_back(0); ihdr.push_back(0);
+    b += png_chunk_bytes("IHDR", ihdr);
+    if (palette_entries > 0) { std::string p; for (int i = 0; i < palette_entries * 3; ++i) p.push_back((char)r.next()); b += png_chunk_bytes("PLTE", p); }
+    if (trns_entries > 0) { std::string t; for (int i = 0; i < trns_entries; ++i) t.push_back((char)r.next()); b += png_chunk_bytes("tRNS", t); }
+    b += png_chunk_bytes("IDAT", z);
+    b += png_chunk_bytes("IEND", "");
+    return b;
+}
+static std::vector<seed_t> g_seeds;
+static void build_seeds() {
+    auto& v = g_seeds;
+    add_seed(v, "c-gray8-7x5", "gray8", png_build(7, 5, 8, 0, 0, 0, 1), 0, true);
+    add_seed(v, "c-gray1-9x4", "gray1", png_build(9, 4, 1, 0, 0, 0, 2), 0, false);
+    add_seed(v, "c-gray4-7x3", "gray4", png_build(7, 3, 4, 0, 0, 0, 3), 0, false);
+    add_seed(v, "c-gray16-5x3", "gray16", png_build(5, 3, 16, 0, 0, 0, 4), 3, true);
+    add_seed(v, "c-rgb8-5x4", "rgb8", png_build(5, 4, 8, 2, 0, 0, 5), 1, true);
+    add_seed(v, "c-rgb16-3x3", "rgb16", png_build(3, 3, 16, 2, 0, 0, 6), 4, false);
+    add_seed(v, "c-pal8-6x4-16col", "pal8", png_build(6, 4, 8, 3, 16, 0, 7), 1, true);
+    add_seed(v, "c-pal4-7x3-trns", "pal4-trns", png_build(7, 3, 4, 3, 16, 5, 8), 2, true);
+    add_seed(v, "c-pal1-9x3", "pal1", png_build(9, 3, 1, 3, 2, 0, 9), 1, false);
+    add_seed(v, "c-graya8-4x3", "gray-alpha8", png_build(4, 3, 8, 4, 0, 0, 10), 2, false);
+    add_seed(v, "c-rgba8-4x3", "rgba8", png_build(4, 3, 8, 6, 0, 0, 11), 2, true);
+    add_seed(v, "c-rgba16-2x2", "rgba16", png_build(2, 2, 16, 6, 0, 0, 12), 2, false);
+    add_seed(v, "c-rgb8-1x1", "rgb8", png_build(1, 1, 8, 2, 0, 0, 13), 1, false);
+    { std::string b = png_build(5, 4, 8, 2, 0, 0, 14); b[28] = 1; add_seed(v, "c-rgb8-5x4-adam7-flag", "rgb8-interlaced", png_fix_crcs(b), 1, false); }
+    gil::image_write_info<gil::png_tag> wi;
+    add_seed(v, "w-gray8-9x7", "gray8", written(gil::const_view(seeded_image<gil::gray8_image_t>(9, 7, 21)), wi), 0, false);
+    add_seed(v, "w-gray16-5x3", "gray16", written(gil::const_view(seeded_image<gil::gray16_image_t>(5, 3, 22)), wi), 3, false);
+    add_seed(v, "w-rgb8-9x7", "rgb8", written(gil::const_view(seeded_image<gil::rgb8_image_t>(9, 7, 23)), wi), 1, false);
+    add_seed(v, "w-rgba8-5x4", "rgba8", written(gil::const_view(seeded_image<gil::rgba8_image_t>(5, 4, 24)), wi), 2, false);
+    add_seed(v, "w-rgb16-4x3", "rgb16", written(gil::const_view(seeded_image<gil::rgb16_image_t>(4, 3, 25)), wi), 4, false);
+    add_seed(v, "w-rgba16-3x2", "rgba16", written(gil::const_view(seeded_image<gil::rgba16_image_t>(3, 2, 26)), wi), 2, false);
+    struct { const char* f; const char* variant; int kind; bool rep; } fx[] = {
+        { "PngSuite/tbbn0g04.png", "gray4-trns", 0, false }, { "PngSuite/tbbn2c16.png", "rgb16-trns", 4, true }, { "PngSuite/tbbn3p08.png", "pal8-trns", 2, true },
+        { "PngSuite/tbrn2c08.png", "rgb8-trns", 1, false }, { "PngSuite/tbwn0g16.png", "gray16-trns", 3, false }, { "PngSuite/tm3n3p02.png", "pal2-trns", 2, false },
+        { "PngSuite/tp1n3p08.png", "pal8", 1, false }, { "EddDawson/36dpi.png", "rgb8-phys", 1, false }, { "grayscale-with-tRNS-chunk.png", "gray-trns", 0, false } };
+    for (auto& x : fx) add_fixture(v, "png", x.f, x.variant, x.kind, x.rep);
+}
+static void targeted() {
+    // every (bit depth, colour type) combination, legal or not
+    for (int ct : { 0, 1, 2, 3, 4, 5, 6, 7, 255 }) for (int bd : { 0, 1, 2, 3, 4, 8, 16, 32, 255 })
+        mut_case<F>("depth-vs-type", vh::cat("ct", ct, "-bd", bd), false, true, [&] {
+            std::string b = png_build(6, 4, 8, 2, 0, 0, 100); b[24] = (char)bd; b[25] = (char)ct; return png_fix_crcs(b);
+        });
+    // palette shorter than the indices / missing / oversized; tRNS longer than the palette
+    struct { const char* id; int bd, pal, trns; } pc[] = { { "pal8-1entry", 8, 1, 0 }, { "pal8-none", 8, 0, 0 }, { "pal4-3entries", 4, 3, 0 }, { "pal1-1entry", 1, 1, 0 },
+                                                           { "pal8-256", 8, 256, 0 }, { "pal2-16entries", 2, 16, 0 }, { "pal8-trns-longer", 8, 4, 40 }, { "pal4-trns-256", 4, 16, 256 } };
+    for (auto const& c : pc)
+        mut_case<F>("palette", c.id, false, true, [&] {
+            std::string b = png_build(8, 3, c.bd, 3, c.pal == 256 ? 256 : c.pal, c.trns, 110);
+            return b;
+        });
+    mut_case<F>("palette", "plte-len-not-multiple-of-3", false, true, [&] {
+        std::string b = png_build(8, 3, 8, 3, 4, 0, 111);
+        for (auto const& c : png_chunks(b)) if (!strcmp(c.type, "PLTE")) { std::string n = b.substr(0, c.off) + png_chunk_bytes("PLTE", std::string(10, 'x')) + b.substr(c.off + 12 + c.len); return n; }
+        return b;
+    });
+    // image data shorter / longer than the header declares; bad filter bytes
+    struct { const char* id; int w, h; int raw_rows; int filter; } dc[] = { { "idat-too-short", 6, 8, 2, -1 }, { "idat-too-long", 6, 2, 9, -1 }, { "idat-empty", 6, 4, 0, -1 },
+                                                                             { "filter-5", 6, 4, 4, 5 }, { "filter-255", 6, 4, 4, 255 } };
+    for (auto const& c : dc) for (int ct : { 0, 2, 6 })
+        mut_case<F>("idat-vs-header", vh::cat(c.id, "-ct", ct), false, true, [&] {
+            int ch = ct == 0 ? 1 : ct == 2 ? 3 : 4;
+            std::string raw; vh::rng r(120);
+            for (int y = 0; y < c.raw_rows; ++y) { raw.push_back((char)(c.filter >= 0 ? c.filter : 0)); for (int i = 0; i < c.w * ch; ++i) raw.push_back((char)r.next()); }
+            if (raw.empty()) raw = std::string(1, '\0');
+            std::string b = png_build(c.w, c.h, 8, ct, 0, 0, 121, raw);
+            return b;
+        });
+    // dimensions
+    struct { const char* id; uint32_t w, h; } dm[] = { { "w0", 0, 4 }, { "h0", 4, 0 }, { "w-2^31-1", 0x7FFFFFFF, 1 }, { "h-2^31-1", 1, 0x7FFFFFFF }, { "w-2^31", 0x80000000u, 1 },
+                                                       { "65536x65536", 65536, 65536 }, { "1000000x1", 1000000, 1 }, { "1x1000000", 1, 1000000 }, { "30000x30000", 30000, 30000 } };
+    for (auto const& c : dm) for (int il = 0; il < 2; ++il)
+        mut_case<F>("dimension", vh::cat(c.id, il ? "-adam7" : ""), false, true, [&] {
+            std::string b = png_build(4, 4, 8, 2, 0, 0, 130); c11::put_be(b, 16, 4, c.w); c11::put_be(b, 20, 4, c.h); b[28] = (char)il; return png_fix_crcs(b);
+        });
+    // chunk order / duplicates / unknown critical chunk / missing IEND / zlib stream cut
+    for (int k = 0; k < 8; ++k)
+        mut_case<F>("chunk-structure", vh::cat("variant", k), false, true, [&] {
+            std::string b = png_build(5, 4, 8, 3, 8, 3, 140);
+            std::vector<png_chunk> ch = png_chunks(b);
+            auto bytes_of = [&](png_chunk const& c) { return b.substr(c.off, 12 + c.len); };
+            std::string sig = b.substr(0, 8), ihdr = bytes_of(ch[0]), plte = bytes_of(ch[1]), trns = bytes_of(ch[2]), idat = bytes_of(ch[3]), iend = bytes_of(ch[4]);
+            switch (k) {
+            case 0: return sig + plte + ihdr + trns + idat + iend;
+            case 1: return sig + ihdr + ihdr + plte + trns + idat + iend;
+            case 2: return sig + ihdr + trns + plte + idat + iend;
+            case 3: return sig + ihdr + plte + trns + idat;
+            case 4: return sig + ihdr + plte + trns + png_chunk_bytes("XXXX", "critical") + idat + iend;
+            case 5: return sig + ihdr + plte + trns + idat + idat + iend;
+            case 6: return sig + ihdr + plte + trns + iend;
+            default: return sig + ihdr + plte + plte + trns + trns + idat + iend;
+            }
+        });
+    const char* junk[] = { "", "\x89", "\x89PNG", "\x89PNG\r\n\x1a\n", "BM....", "\xff\xd8\xff" };
+    for (int k = 0; k < 6; ++k) mut_case<F>("not-png", vh::cat("junk", k), false, true, [&] { return std::string(junk[k]); });
+}
+#endif
+
+#if C11_FMT == 4   // ---------------------------------------------------------------------------- JPEG
+struct jpeg_seg { size_t off; int marker; unsigned len; };
+static std::vector<jpeg_seg> jpeg_segments(std::string const& b) {
+    std::vector<jpeg_seg> v;
+    size_t p = 2;
+    while (p + 4 <= b.size()) {
+        if ((unsigned char)b[p] != 0xFF) break;
+        jpeg_seg s; s.off = p; s.marker = (unsigned char)b[p + 1]; s.len = (unsigned)c11::get_be(b, p + 2, 2);
+        v.push_back(s);
+        if (s.marker == 0xDA) break;       // entropy-coded data follows
+        p += 2 + s.len;
+    }
+    return v;
+}
+struct F_jpeg {
+    typedef gil::jpeg_tag tag;
+    static const char* name() { return "jpeg"; }
+    static const char* ext() { return "jpg"; }
+    static const bool has_FILE = true;
+    static const bool subrect = true;
+    typedef std::tuple<gil::gray8_image_t, gil::rgb8_image_t, gil::cmyk8_image_t> natives;
+    typedef std::tuple<gil::rgb8_image_t, gil::gray8_image_t> conv_targets;
+    typedef gil::any_image<gil::gray8_image_t, gil::rgb8_image_t, gil::cmyk8_image_t> any_t;
+    static std::string info_str(gil::image_read_info<tag> const& i) {
+        return vh::cat("w=", i._width, " h=", i._height, " nc=", (int)i._num_components, " cs=", (int)i._color_space, " prec=", (int)i._data_precision,
+                       " du=", (int)i._density_unit, " xd=", (int)i._x_density, " yd=", (int)i._y_density);
+    }
+    static bool parse_dims(std::string const& b, long& w, long& h, uint64_t& extra) {
+        extra = 0;
+        for (auto const& s : jpeg_segments(b))
+            if (s.marker >= 0xC0 && s.marker <= 0xCF && s.marker != 0xC4 && s.marker != 0xC8 && s.marker != 0xCC) {
+                h = (long)c11::get_be(b, s.off + 5, 2); w = (long)c11::get_be(b, s.off + 7, 2);
+                extra = (uint64_t)w * (uint64_t)h * 3;       // up to four components
+                return true;
+            }
+        return false;
+    }
+    // GIL's skip_input_data walks a declared segment length (<= 65535) two bytes at a time once the input is exhausted
+    static uint64_t declared_slack(std::string const&) { return 16384; }
+    static size_t header_len(seed_t const& s) { size_t n = 0; for (auto const& g : jpeg_segments(s.bytes)) n = g.off + 2 + g.len; return n ? n : 64; }
+    static std::string fixup(std::string const& b) { return b; }
+    static std::vector<c11::field_t> fields(seed_t const& s) {
+        std::vector<c11::field_t> f = { { "soi", 0, 2, true } };
+        bool dqt = false, dht = false;
+        for (auto const& g : jpeg_segments(s.bytes)) {
+            unsigned o = (unsigned)g.off;
+            if (g.marker == 0xE0) { f.push_back({ "app0_len", o + 2, 2, true }); f.push_back({ "app0_units", o + 11, 1, true }); f.push_back({ "app0_xdensity", o + 12, 2, true }); }
+            if (g.marker == 0xDB && !dqt) { dqt = true; f.push_back({ "dqt_len", o + 2, 2, true }); f.push_back({ "dqt_pq_tq", o + 4, 1, true }); }
+            if (g.marker >= 0xC0 && g.marker <= 0xC2) {
+                f.push_back({ "sof_marker", o + 1, 1, true }); f.push_back({ "sof_len", o + 2, 2, true }); f.push_back({ "sof_precision", o + 4, 1, true });
+                f.push_back({ "sof_height", o + 5, 2, true }); f.push_back({ "sof_width", o + 7, 2, true }); f.push_back({ "sof_ncomp", o + 9, 1, true });
+                f.push_back({ "sof_comp1_id", o + 10, 1, true }); f.push_back({ "sof_comp1_sampling", o + 11, 1, true }); f.push_back({ "sof_comp1_tq", o + 12, 1, true });
+            }
+            if (g.marker == 0xC4 && !dht) { dht = true; f.push_back({ "dht_len", o + 2, 2, true }); f.push_back({ "dht_tc_th", o + 4, 1, true }); f.push_back({ "dht_count1", o + 5, 1, true }); }
+            if (g.marker == 0xDA) { f.push_back({ "sos_len", o + 2, 2, true }); f.push_back({ "sos_ncomp", o + 4, 1, true }); f.push_back({ "sos_comp1_tables", o + 6, 1, true }); }
+            if (g.marker == 0xEE) { f.push_back({ "adobe_transform", o + 15, 1, true }); }
+        }
+        return f;
+    }
+};
+typedef F_jpeg F;
+static void format_setup() {}
+static std::vector<seed_t> g_seeds;
+template <class Img> static Img smooth_image(int w, int h, uint64_t seed) {
+    Img im(w, h); vh::rng r(seed);
+    auto v = gil::view(im);
+    int nc = (int)gil::num_channels<Img>::value;
+    for (int y = 0; y < h; ++y) { unsigned char* p = (unsigned char*)&*v.row_begin(y); for (int x = 0; x < w; ++x) for (int c = 0; c < nc; ++c) p[x * nc + c] = (unsigned char)(40 + 9 * x + 5 * y + 30 * c + r.below(6)); }
+    return im;
+}
+static void build_seeds() {
+    auto& v = g_seeds;
+    gil::image_write_info<gil::jpeg_tag> wi;
+    add_seed(v, "w-gray8-9x7", "gray8", written(gil::const_view(smooth_image<gil::gray8_image_t>(9, 7, 31)), wi), 0, true);
+    add_seed(v, "w-rgb8-9x7", "rgb8", written(gil::const_view(smooth_image<gil::rgb8_image_t>(9, 7, 32)), wi), 1, true);
+    add_seed(v, "w-cmyk8-9x7", "cmyk8", written(gil::const_view(smooth_image<gil::cmyk8_image_t>(9, 7, 33)), wi), 2, true);
+    add_seed(v, "w-rgb8-1x1", "rgb8", written(gil::const_view(smooth_image<gil::rgb8_image_t>(1, 1, 34)), wi), 1, false);
+    add_seed(v, "w-rgb8-33x17", "rgb8", written(gil::const_view(smooth_image<gil::rgb8_image_t>(33, 17, 35)), wi), 1, false);
+    add_seed(v, "w-gray8-17x33", "gray8", written(gil::const_view(smooth_image<gil::gray8_image_t>(17, 33, 36)), wi), 0, false);
+    add_fixture(v, "jpeg", "EddDawson/36dpi.jpg", "rgb8-density", 1, true);
+    add_fixture(v, "jpeg", "test.jpg", "rgb8-large", 1, false);
+}
+static void targeted() {
+    std::string base = g_seeds[1].bytes, gray = g_seeds[0].bytes;
+    std::vector<jpeg_seg> segs = jpeg_segments(base);
+    auto find = [&](std::string const& b, int marker) { for (auto const& s : jpeg_segments(b)) if (s.marker == marker) return s; jpeg_seg z; z.off = 0; z.marker = 0; z.len = 0; return z; };
+    // dimensions vs the (small) entropy-coded data
+    struct { const char* id; unsigned w, h; } dm[] = { { "w0", 0, 7 }, { "h0", 9, 0 }, { "65535x65535", 65535, 65535 }, { "65535x1", 65535, 1 }, { "1x65535", 1, 65535 },
+                                                       { "4000x4000", 4000, 4000 }, { "2000x100", 2000, 100 }, { "8x8", 8, 8 }, { "1x1", 1, 1 } };
+    for (auto const& c : dm) for (int g = 0; g < 2; ++g) {
+        if (!vh::thorough() && (uint64_t)c.w * c.h > (6u << 20) && (uint64_t)c.w * c.h < (80u << 20)) continue;
+        mut_case<F>("dimension", vh::cat(c.id, g ? "-gray" : "-rgb"), false, true, [&] {
+            std::string b = g ? gray : base; jpeg_seg s = find(b, 0xC0);
+            c11::put_be(b, s.off + 5, 2, c.h); c11::put_be(b, s.off + 7, 2, c.w); return b;
+        });
+    }
+    // component counts / sampling factors / table selectors
+    for (int nc : { 0, 1, 2, 3, 4, 5, 10, 255 })
+        mut_case<F>("components", vh::cat("sof-ncomp", nc), false, true, [&] { std::string b = base; jpeg_seg s = find(b, 0xC0); b[s.off + 9] = (char)nc; return b; });
+    for (int sf : { 0x00, 0x10, 0x01, 0x11, 0x22, 0x41, 0x14, 0x44, 0x55, 0xFF }) for (int comp = 0; comp < 3; ++comp)
+        mut_case<F>("sampling", vh::cat("comp", comp, "-", sf), false, true, [&] { std::string b = base; jpeg_seg s = find(b, 0xC0); b[s.off + 11 + 3 * comp] = (char)sf; return b; });
+    for (int tq : { 1, 2, 3, 4, 15, 255 }) for (int comp = 0; comp < 3; ++comp)
+        mut_case<F>("table-selector", vh::cat("sof-comp", comp, "-tq", tq), false, true, [&] { std::string b = base; jpeg_seg s = find(b, 0xC0); b[s.off + 12 + 3 * comp] = (char)tq; return b; });
+    for (int t : { 0x01, 0x10, 0x22, 0x33, 0x44, 0xFF }) for (int comp = 0; comp < 3; ++comp)
+        mut_case<F>("table-selector", vh::cat("sos-comp", comp, "-tables", t), false, true, [&] { std::string b = base; jpeg_seg s = find(b, 0xDA); b[s.off + 6 + 2 * comp] = (char)t; return b; });
+    // segment lengths: beyond EOF, shorter than the payload, below 2
+    for (int marker : { 0xE0, 0xDB, 0xC0, 0xC4, 0xDA }) for (unsigned len : { 0u, 1u, 2u, 3u, 0x7FFFu, 0xFFFFu })
+        mut_case<F>("segment-length", vh::cat("marker", marker, "-len", len), false, true, [&] { std::string b = base; jpeg_seg s = find(b, marker); if (s.off) c11::put_be(b, s.off + 2, 2, len); return b; });
+    // missing tables / segments, duplicated SOF, markers inside the scan
+    for (int k = 0; k < 8; ++k)
+        mut_case<F>("structure", vh::cat("variant", k), false, true, [&] {
+            std::string b = base; std::vector<jpeg_seg> ss = jpeg_segments(b);
+            auto cut = [&](int marker, bool all) { std::string o = b.substr(0, 2); for (auto const& s : ss) { bool drop = s.marker == marker; if (drop && !all) { marker = -1; } if (!drop) o += b.substr(s.off, s.marker == 0xDA ? std::string::npos : 2 + s.len); } return o; };
+            switch (k) {
+            case 0: return cut(0xDB, true);
+            case 1: return cut(0xC4, true);
+            case 2: return cut(0xC0, true);
+            case 3: return cut(0xDA, true);
+            case 4: { jpeg_seg s = find(b, 0xC0); return b.substr(0, s.off) + b.substr(s.off, 2 + s.len) + b.substr(s.off); }
+            case 5: { jpeg_seg s = find(b, 0xDA); std::string o = b; size_t p = s.off + 2 + s.len + 5; if (p + 2 < o.size()) { o[p] = (char)0xFF; o[p + 1] = (char)0xC0; } return o; }
+            case 6: { jpeg_seg s = find(b, 0xDA); std::string o = b; size_t p = s.off + 2 + s.len + 3; if (p + 2 < o.size()) { o[p] = (char)0xFF; o[p + 1] = (char)0xD9; } return o; }
+            default: return b.substr(0, b.size() - 2);
+            }
+        });
+    // arithmetic / progressive / lossless SOF markers on baseline data
+    for (int m : { 0xC1, 0xC2, 0xC3, 0xC5, 0xC9, 0xCA, 0xCB, 0xCF })
+        mut_case<F>("sof-kind", vh::cat("marker", m), false, true, [&] { std::string b = base; jpeg_seg s = find(b, 0xC0); b[s.off + 1] = (char)m; return b; });
+    const char* junk[] = { "", "\xff", "\xff\xd8", "\xff\xd8\xff", "\xff\xd8\xff\xd9", "BM....", "\x89PNG\r\n\x1a\n" };
+    for (int k = 0; k < 7; ++k) mut_case<F>("not-jpeg", vh::cat("junk", k), false, true, [&] { return std::string(junk[k]); });
+}
+#endif
+
+#if C11_FMT == 5   // ---------------------------------------------------------------------------- TIFF
+struct tiff_entry { size_t off; unsigned tag, type; uint64_t count, value; };
+static std::vector<tiff_entry> tiff_ifd(std::string const& b, size_t* ifd_off_out = nullptr) {
+    std::vector<tiff_entry> v;
+    if (b.size() < 8 || b[0] != 'I' || b[1] != 'I') return v;       // the seeds are little-endian
+    size_t ifd = (size_t)c11::get_le(b, 4, 4);
+    if (ifd_off_out) *ifd_off_out = ifd;
+    if (ifd + 2 > b.size()) return v;
+    unsigned n = (unsigned)c11::get_le(b, ifd, 2);
+    for (unsigned i = 0; i < n && ifd + 2 + 12 * (i + 1) <= b.size(); ++i) {
+        tiff_entry e; e.off = ifd + 2 + 12 * i;
+        e.tag = (unsigned)c11::get_le(b, e.off, 2); e.type = (unsigned)c11::get_le(b, e.off + 2, 2);
+        e.count = c11::get_le(b, e.off + 4, 4); e.value = c11::get_le(b, e.off + 8, e.type == 3 ? 2 : 4);
+        v.push_back(e);
+    }
+    return v;
+}
+struct F_tiff {
+    typedef gil::tiff_tag tag;
+    static const char* name() { return "tiff"; }
+    static const char* ext() { return "tif"; }
+    static const bool has_FILE = false;         // GIL has no FILE* device for TIFF
+    static const bool subrect = true;
+    typedef std::tuple<gil::gray8_image_t, gil::rgb8_image_t, gil::rgba8_image_t, gil::rgb16_image_t> natives;
+    typedef std::tuple<gil::rgb8_image_t, gil::gray16_image_t> conv_targets;
+    typedef gil::any_image<gil::gray8_image_t, gil::rgb8_image_t, gil::rgba8_image_t, gil::rgb16_image_t> any_t;
+    static std::string info_str(gil::image_read_info<tag> const& i) {
+        return vh::cat("w=", i._width, " h=", i._height, " comp=", (int)i._compression, " bps=", (int)i._bits_per_sample, " spp=", (int)i._samples_per_pixel,
+                       " sf=", (int)i._sample_format, " pc=", (int)i._planar_configuration, " pi=", (int)i._photometric_interpretation, " tiled=", (int)i._is_tiled,
+                       " tw=", (long)i._tile_width, " tl=", (long)i._tile_length);
+    }
+    static bool parse_dims(std::string const& b, long& w, long& h, uint64_t& extra) {
+        extra = 0; w = h = 0;
+        uint64_t spp = 1, tw = 0, tl = 0;
+        for (auto const& e : tiff_ifd(b)) {
+            if (e.tag == 256) w = (long)e.value;
+            if (e.tag == 257) h = (long)e.value;
+            if (e.tag == 277) spp = e.value;
+            if (e.tag == 322) tw = e.value;
+            if (e.tag == 323) tl = e.value;
+        }
+        if (w <= 0 || h <= 0) return false;
+        // tiles are read whole: round up to the tile grid; several samples per pixel
+        uint64_t ww = (uint64_t)w, hh = (uint64_t)h;
+        if (tw && tl && tw < (1u << 20) && tl < (1u << 20)) { ww = (ww + tw - 1) / tw * tw; hh = (hh + tl - 1) / tl * tl; }
+        if (spp > 8) spp = 8;
+        unsigned __int128 p = (unsigned __int128)ww * hh * spp;
+        extra = p > ((unsigned __int128)1 << 40) ? ((uint64_t)1 << 40) : (uint64_t)p;
+        return true;
+    }
+    static uint64_t declared_slack(std::string const& b) { return 8192 + b.size(); }     // libtiff re-reads directories and tag arrays
+    static size_t header_len(seed_t const& s) { size_t ifd = 8; std::vector<tiff_entry> e = tiff_ifd(s.bytes, &ifd); return ifd + 2 + 12 * e.size() + 4; }
+    static std::string fixup(std::string const& b) { return b; }
+    static std::vector<c11::field_t> fields(seed_t const& s) {
+        std::vector<c11::field_t> f = { { "byte_order", 0, 2, false }, { "magic", 2, 2, false }, { "ifd_offset", 4, 4, false } };
+        size_t ifd = 0; std::vector<tiff_entry> es = tiff_ifd(s.bytes, &ifd);
+        if (es.empty()) return f;
+        f.push_back({ "ifd_count", (unsigned)ifd, 2, false });
+        f.push_back({ "next_ifd", (unsigned)(ifd + 2 + 12 * es.size()), 4, false });
+        static std::vector<std::string> names;      // stable storage for the names
+        names.reserve(4096);
+        for (auto const& e : es) {
+            const char* kinds[] = { "type", "count", "value" };
+            for (int k = 0; k < 3; ++k) {
+                if (names.size() + 1 >= names.capacity()) break;
+                names.push_back(vh::cat("tag", e.tag, ".", kinds[k]));
+                f.push_back({ names.back().c_str(), (unsigned)(e.off + (k == 0 ? 2 : k == 1 ? 4 : 8)), k == 0 ? 2u : 4u, false });
+            }
+        }
+        return f;
+    }
+};
+typedef F_tiff F;
+static void format_setup() { TIFFSetErrorHandler(nullptr); TIFFSetWarningHandler(nullptr); }
+static std::vector<seed_t> g_seeds;
+template <class Img> static std::string tiff_written(int w, int h, uint64_t seed, int compression, bool tiled, int tile) {
+    gil::image_write_info<gil::tiff_tag> wi;
+    wi._compression = compression;
+    wi._is_tiled = tiled; wi._tile_width = tile; wi._tile_length = tile;
+    wi._photometric_interpretation = gil::num_channels<Img>::value == 1 ? PHOTOMETRIC_MINISBLACK : PHOTOMETRIC_RGB;
+    return written(gil::const_view(seeded_image<Img>(w, h, seed)), wi);
+}
+static void build_seeds() {
+    auto& v = g_seeds;
+    add_seed(v, "w-gray8-9x7-strip", "gray8-strip", tiff_written<gil::gray8_image_t>(9, 7, 41, COMPRESSION_NONE, false, 0), 0, true);
+    add_seed(v, "w-rgb8-9x7-strip", "rgb8-strip", tiff_written<gil::rgb8_image_t>(9, 7, 42, COMPRESSION_NONE, false, 0), 1, true);
+    add_seed(v, "w-rgba8-5x4-strip", "rgba8-strip", tiff_written<gil::rgba8_image_t>(5, 4, 43, COMPRESSION_NONE, false, 0), 2, false);
+    add_seed(v, "w-rgb16-4x3-strip", "rgb16-strip", tiff_written<gil::rgb16_image_t>(4, 3, 44, COMPRESSION_NONE, false, 0), 3, false);
+    add_seed(v, "w-rgb8-9x7-lzw", "rgb8-lzw", tiff_written<gil::rgb8_image_t>(9, 7, 45, COMPRESSION_LZW, false, 0), 1, true);
+    add_seed(v, "w-gray8-9x7-packbits", "gray8-packbits", tiff_written<gil::gray8_image_t>(9, 7, 46, COMPRESSION_PACKBITS, false, 0), 0, false);
+    add_seed(v, "w-rgb8-9x7-deflate", "rgb8-deflate", tiff_written<gil::rgb8_image_t>(9, 7, 47, COMPRESSION_ADOBE_DEFLATE, false, 0), 1, false);
+    add_seed(v, "w-rgb8-20x18-tile16", "rgb8-tiled", tiff_written<gil::rgb8_image_t>(20, 18, 48, COMPRESSION_NONE, true, 16), 1, true);
+    add_seed(v, "w-gray8-20x18-tile16-lzw", "gray8-tiled-lzw", tiff_written<gil::gray8_image_t>(20, 18, 49, COMPRESSION_LZW, true, 16), 0, false);
+    add_seed(v, "w-rgb8-1x1-strip", "rgb8-strip", tiff_written<gil::rgb8_image_t>(1, 1, 50, COMPRESSION_NONE, false, 0), 1, false);
+    { gil::image_write_info<gil::tiff_tag> wi; gil::gray1_image_t g(19, 5); gil::fill_pixels(gil::view(g), gil::gray1_image_t::value_type(0)); vh::rng r(51);
+      auto gv = gil::view(g); for (int y = 0; y < 5; ++y) { auto it = gv.row_begin(y); for (int x = 0; x < 19; ++x, ++it) gil::at_c<0>(*it) = (unsigned)r.below(2); }
+      add_seed(v, "w-gray1-19x5-strip", "gray1-strip", written(gil::view(g), wi), 0, false); }
+}
+static void targeted() {
+    std::string base = g_seeds[1].bytes, tiled = g_seeds[7].bytes, lzw = g_seeds[4].bytes;
+    auto set_tag = [](std::string b, unsigned tag, int what /*0 type 1 count 2 value*/, uint64_t v) {
+        for (auto const& e : tiff_ifd(b)) if (e.tag == tag) c11::put_le(b, e.off + (what == 0 ? 2 : what == 1 ? 4 : 8), what == 0 ? 2 : 4, v);
+        return b;
+    };
+    // dimensions / rows per strip / tile sizes against the stored data
+    struct { const char* id; unsigned tag; uint64_t v; } tv[] = {
+        { "width0", 256, 0 }, { "height0", 257, 0 }, { "width-2^31-1", 256, 0x7FFFFFFF }, { "height-2^31-1", 257, 0x7FFFFFFF }, { "width-65536", 256, 65536 }, { "height-65536", 257, 65536 },
+        { "width-10", 256, 10 }, { "height-8", 257, 8 }, { "width-3000", 256, 3000 }, { "height-3000", 257, 3000 },
+        { "rowsperstrip0", 278, 0 }, { "rowsperstrip1", 278, 1 }, { "rowsperstrip-2^32-1", 278, 0xFFFFFFFFull }, { "stripbytecount0", 279, 0 }, { "stripbytecount-huge", 279, 0x7FFFFFFF },
+        { "stripoffset-beyond", 273, 0x00FFFFFF }, { "stripoffset0", 273, 0 }, { "bps0", 258, 0 }, { "bps1", 258, 1 }, { "bps7", 258, 7 }, { "bps16", 258, 16 }, { "bps32", 258, 32 }, { "bps64", 258, 64 },
+        { "spp0", 277, 0 }, { "spp1", 277, 1 }, { "spp2", 277, 2 }, { "spp4", 277, 4 }, { "spp5", 277, 5 }, { "spp255", 277, 255 }, { "spp65535", 277, 65535 },
+        { "photometric-palette", 262, 3 }, { "photometric-ycbcr", 262, 6 }, { "photometric-cielab", 262, 8 }, { "photometric-miniswhite", 262, 0 }, { "photometric-99", 262, 99 },
+        { "planar-separate", 284, 2 }, { "planar-0", 284, 0 }, { "planar-3", 284, 3 }, { "compression-ccitt3", 259, 3 }, { "compression-jpeg", 259, 7 }, { "compression-lzw", 259, 5 },
+        { "compression-packbits", 259, 32773 }, { "compression-deflate", 259, 8 }, { "compression-0", 259, 0 }, { "compression-65535", 259, 65535 },
+        { "orientation-5", 274, 5 }, { "orientation-9", 274, 9 }, { "sampleformat-float", 339, 3 }, { "sampleformat-int", 339, 2 } };
+    for (auto const& c : tv) for (int which = 0; which < 3; ++which)
+        mut_case<F>("tag-value", vh::cat(which == 0 ? "strip-" : which == 1 ? "tiled-" : "lzw-", c.id), false, true, [&] { return set_tag(which == 0 ? base : which == 1 ? tiled : lzw, c.tag, 2, c.v); });
+    struct { const char* id; unsigned tag; uint64_t v; } tt[] = { { "tilewidth0", 322, 0 }, { "tilelength0", 323, 0 }, { "tilewidth1", 322, 1 }, { "tilewidth-17", 322, 17 }, { "tilewidth-2^31", 322, 0x80000000ull },
+                                                                   { "tilelength-65536", 323, 65536 }, { "tilewidth-1024", 322, 1024 }, { "tilebytecount0", 325, 0 }, { "tileoffsets-count1", 324, 1 } };
+    for (auto const& c : tt)
+        mut_case<F>("tile-geometry", c.id, false, true, [&] { return strstr(c.id, "count1") ? set_tag(tiled, c.tag, 1, c.v) : set_tag(tiled, c.tag, 2, c.v); });
+    // counts and types of the array-valued tags
+    for (unsigned tag : { 256u, 258u, 273u, 279u, 277u, 324u, 325u }) for (uint64_t cnt : { 0ull, 2ull, 3ull, 1000ull, 0x7FFFFFFFull, 0xFFFFFFFFull }) for (int which = 0; which < 2; ++which)
+        mut_case<F>("tag-count", vh::cat(which ? "tiled-" : "strip-", "tag", tag, "-count", cnt), false, true, [&] { return set_tag(which ? tiled : base, tag, 1, cnt); });
+    for (unsigned tag : { 256u, 257u, 258u, 273u, 279u }) for (unsigned ty : { 0u, 1u, 2u, 5u, 7u, 11u, 12u, 13u, 16u, 255u })
+        mut_case<F>("tag-type", vh::cat("tag", tag, "-type", ty), false, true, [&] { return set_tag(base, tag, 0, ty); });
+    // directory structure: self-referencing next-IFD, IFD beyond EOF, zero entries, big-endian marker on little-endian data, BigTIFF magic
+    for (int k = 0; k < 8; ++k)
+        mut_case<F>("directory", vh::cat("variant", k), false, true, [&] {
+            std::string b = base; size_t ifd = 0; std::vector<tiff_entry> es = tiff_ifd(b, &ifd);
+            switch (k) {
+            case 0: c11::put_le(b, ifd + 2 + 12 * es.size(), 4, ifd); return b;
+            case 1: c11::put_le(b, 4, 4, b.size() + 100); return b;
+            case 2: c11::put_le(b, ifd, 2, 0); return b;
+            case 3: b[0] = 'M'; b[1] = 'M'; return b;
+            case 4: c11::put_le(b, 2, 2, 43); return b;
+            case 5: c11::put_le(b, ifd, 2, 0xFFFF); return b;
+            case 6: c11::put_le(b, 4, 4, 1); return b;
+            default: c11::put_le(b, 4, 4, b.size() - 3); return b;
+            }
+        });
+    const char* junk[] = { "", "I", "II", "II*", "MM\0*", "II*\0\x08\0\0\0", "BM....", "\x89PNG\r\n\x1a\n" };
+    size_t junk_len[] = { 0, 1, 2, 3, 4, 8, 6, 8 };
+    for (int k = 0; k < 8; ++k) mut_case<F>("not-tiff", vh::cat("junk", k), false, true, [&] { return std::string(junk[k], junk_len[k]); });
+}
+#endif
